@@ -213,7 +213,7 @@ func genStorage(p *pkgInfo) string {
 		if !ast.IsExported(name) && !baselineFuncs[funcKey(m.decl)] {
 			continue // a helper introduced since the pinned source: its statements were inlined where it is called (inline.go)
 		}
-		if s := storageSitesOf(m.decl.Body); len(s) > 0 {
+		if s := normalizeSites(storageSitesOf(m.decl.Body), m.decl.Body, m.recvName); len(s) > 0 {
 			es = append(es, entry{"list." + name, s})
 		}
 	}
@@ -226,7 +226,7 @@ func genStorage(p *pkgInfo) string {
 		if !ast.IsExported(n) && !baselineFuncs[funcKey(p.funcs[n])] {
 			continue
 		}
-		if s := storageSitesOf(p.funcs[n].Body); len(s) > 0 {
+		if s := normalizeSites(storageSitesOf(p.funcs[n].Body), p.funcs[n].Body, ""); len(s) > 0 {
 			es = append(es, entry{n, s})
 		}
 	}
@@ -244,4 +244,264 @@ func genStorage(p *pkgInfo) string {
 	}
 	b.WriteString("]\n\nend Anytype.Generated\n")
 	return b.String()
+}
+
+// ---------------------------------------------------------------------------------------------
+// Normal form of the fingerprint (rule S2). The statements are compared up to
+//   (a) the names of variables: the receiver is `r`, every other variable is v1, v2, … in order of first appearance in the
+//       function's sites (function names, field names, types and literals stay);
+//   (b) temporaries: a site `x := E` whose variable is used exactly once in the whole function, inside a later site, is
+//       substituted there (so `val := make(…); l := &list{val: val}` and `l := &list{val: make(…)}` are one fingerprint);
+//   (c) repetition: a site that repeats an earlier site of the same function is listed once (three switch arms that end in the
+//       same assignment, or one assignment after the switch).
+// None of this is a proof step: the fingerprint only says which storage statements the source has; what they do is the business
+// of `Model/Slices` and of the slices stratum.
+
+var notVariables = map[string]bool{"nil": true, "true": true, "false": true, "any": true,
+	"int": true, "string": true, "bool": true, "float64": true, "_": true, "iota": true}
+
+// identUses counts the occurrences of each identifier used as a variable in n.
+func variableIdents(n ast.Node, visit func(id *ast.Ident)) {
+	var walk func(x ast.Node)
+	walk = func(x ast.Node) {
+		switch e := x.(type) {
+		case nil:
+			return
+		case *ast.Ident:
+			if !notVariables[e.Name] && !ast.IsExported(e.Name) {
+				visit(e)
+			}
+			return
+		case *ast.SelectorExpr:
+			walk(e.X)
+			return
+		case *ast.CallExpr:
+			if _, ok := e.Fun.(*ast.Ident); !ok {
+				walk(e.Fun)
+			}
+			for _, a := range e.Args {
+				walk(a)
+			}
+			return
+		case *ast.KeyValueExpr:
+			if _, ok := e.Key.(*ast.Ident); !ok {
+				walk(e.Key)
+			}
+			walk(e.Value)
+			return
+		case *ast.CompositeLit:
+			for _, el := range e.Elts {
+				walk(el)
+			}
+			return
+		case *ast.ArrayType, *ast.MapType, *ast.FuncType, *ast.InterfaceType, *ast.StructType:
+			return
+		case *ast.TypeAssertExpr:
+			walk(e.X)
+			return
+		}
+		// generic descent over the children
+		first := true
+		ast.Inspect(x, func(c ast.Node) bool {
+			if first {
+				first = false
+				return true
+			}
+			if c != nil {
+				walk(c)
+			}
+			return false
+		})
+	}
+	walk(n)
+}
+
+func normalizeSites(sites []string, body *ast.BlockStmt, recv string) []string {
+	if len(sites) == 0 {
+		return nil
+	}
+	uses := map[string]int{}
+	variableIdents(body, func(id *ast.Ident) { uses[id.Name]++ })
+	fs := token.NewFileSet()
+	f, err := parser.ParseFile(fs, "s.go", "package p\nfunc _() {\n"+strings.Join(sites, "\n")+"\n}\n", 0)
+	if err != nil {
+		return sites
+	}
+	stmts := f.Decls[0].(*ast.FuncDecl).Body.List
+	// (b) forward substitution of single-use temporaries
+	for changed := true; changed; {
+		changed = false
+		for i, st := range stmts {
+			as, ok := st.(*ast.AssignStmt)
+			if !ok || as.Tok != token.DEFINE || len(as.Lhs) != 1 || len(as.Rhs) != 1 {
+				continue
+			}
+			id, ok := as.Lhs[0].(*ast.Ident)
+			if !ok || uses[id.Name] != 2 { // the definition and one use
+				continue
+			}
+			done := false
+			for j := i + 1; j < len(stmts) && !done; j++ {
+				n := 0
+				variableIdents(stmts[j], func(x *ast.Ident) {
+					if x.Name == id.Name {
+						n++
+					}
+				})
+				if n != 1 {
+					continue
+				}
+				replaceIdent(stmts[j], id.Name, &ast.ParenExpr{X: as.Rhs[0]})
+				done = true
+			}
+			if done {
+				stmts = append(stmts[:i:i], stmts[i+1:]...)
+				changed = true
+				break
+			}
+		}
+	}
+	// (a) names
+	names := map[string]string{}
+	if recv != "" {
+		names[recv] = "r"
+	}
+	for _, st := range stmts {
+		variableIdents(st, func(id *ast.Ident) {
+			if _, ok := names[id.Name]; !ok {
+				names[id.Name] = fmt.Sprintf("v%d", len(names)+1)
+			}
+		})
+	}
+	var out []string
+	seen := map[string]bool{}
+	for _, st := range stmts {
+		variableIdents(st, func(id *ast.Ident) { id.Name = names[id.Name] })
+		var b bytes.Buffer
+		if err := printer.Fprint(&b, fs, st); err != nil {
+			return sites
+		}
+		// print, parse, print: the canonical spacing and no redundant parentheses
+		t := unparenText(strings.Join(strings.Fields(b.String()), " "))
+		if !seen[t] { // (c)
+			seen[t] = true
+			out = append(out, t)
+		}
+	}
+	return out
+}
+
+// replaceIdent substitutes e for the variable `name` in n (n is a fresh tree, parsed from text: no sharing).
+func replaceIdent(n ast.Node, name string, e ast.Expr) {
+	is := func(x ast.Expr) bool {
+		id, ok := x.(*ast.Ident)
+		return ok && id.Name == name
+	}
+	ast.Inspect(n, func(x ast.Node) bool {
+		switch v := x.(type) {
+		case *ast.CallExpr:
+			for i, a := range v.Args {
+				if is(a) {
+					v.Args[i] = e
+				}
+			}
+		case *ast.KeyValueExpr:
+			if is(v.Value) {
+				v.Value = e
+			}
+		case *ast.AssignStmt:
+			for i, a := range v.Rhs {
+				if is(a) {
+					v.Rhs[i] = e
+				}
+			}
+		case *ast.SelectorExpr:
+			if is(v.X) {
+				v.X = e
+			}
+		case *ast.SliceExpr:
+			if is(v.X) {
+				v.X = e
+			}
+		case *ast.IndexExpr:
+			if is(v.X) {
+				v.X = e
+			}
+			if is(v.Index) {
+				v.Index = e
+			}
+		case *ast.UnaryExpr:
+			if is(v.X) {
+				v.X = e
+			}
+		case *ast.BinaryExpr:
+			if is(v.X) {
+				v.X = e
+			}
+			if is(v.Y) {
+				v.Y = e
+			}
+		case *ast.ReturnStmt:
+			for i, a := range v.Results {
+				if is(a) {
+					v.Results[i] = e
+				}
+			}
+		case *ast.CompositeLit:
+			for i, a := range v.Elts {
+				if is(a) {
+					v.Elts[i] = e
+				}
+			}
+		}
+		return true
+	})
+}
+
+// unparenText drops parentheses around a call or composite literal that forward substitution introduced where none are needed:
+// "(make(…))" as an argument or field value.
+func unparenText(t string) string {
+	fs := token.NewFileSet()
+	f, err := parser.ParseFile(fs, "s.go", "package p\nfunc _() {\n"+t+"\n}\n", 0)
+	if err != nil {
+		return t
+	}
+	st := f.Decls[0].(*ast.FuncDecl).Body.List[0]
+	strip := func(e ast.Expr) ast.Expr {
+		if p, ok := e.(*ast.ParenExpr); ok {
+			switch p.X.(type) {
+			case *ast.CallExpr, *ast.CompositeLit, *ast.Ident, *ast.SelectorExpr, *ast.IndexExpr, *ast.SliceExpr:
+				return p.X
+			}
+		}
+		return e
+	}
+	ast.Inspect(st, func(x ast.Node) bool {
+		switch v := x.(type) {
+		case *ast.CallExpr:
+			for i := range v.Args {
+				v.Args[i] = strip(v.Args[i])
+			}
+		case *ast.KeyValueExpr:
+			v.Value = strip(v.Value)
+		case *ast.AssignStmt:
+			for i := range v.Rhs {
+				v.Rhs[i] = strip(v.Rhs[i])
+			}
+		case *ast.ReturnStmt:
+			for i := range v.Results {
+				v.Results[i] = strip(v.Results[i])
+			}
+		case *ast.SliceExpr:
+			v.X = strip(v.X)
+		case *ast.SelectorExpr:
+			// (&list{…}).val keeps its parentheses
+		}
+		return true
+	})
+	var b bytes.Buffer
+	if err := printer.Fprint(&b, fs, st); err != nil {
+		return t
+	}
+	return strings.Join(strings.Fields(b.String()), " ")
 }
